@@ -458,7 +458,13 @@ void IP::write_serialization(uint8_t* buffer, uint32_t total_sz) {
         }
     #endif
     tot_len(total_sz);
-    head_len(static_cast<uint8_t>(header_size() / sizeof(uint32_t)));
+    // A header that does not fit the 4 bit field (more than 40 bytes of options)
+    // can't be represented: reject it instead of truncating the length
+    const uint32_t new_head_len = header_size() / sizeof(uint32_t);
+    if (new_head_len > 15) {
+        throw serialization_error();
+    }
+    head_len(static_cast<uint8_t>(new_head_len));
 
     stream.write(header_);
 
